@@ -434,6 +434,38 @@ theorem hexEncode_length (l : List Nat) : (hexEncode l).length = 2 * l.length :=
   | nil => rfl
   | cons b r ih => simp [hexEncode, ih]; omega
 
+theorem hexDigit_injective : ∀ a, a < 16 → ∀ b, b < 16 → hexDigit a = hexDigit b → a = b := by
+  decide
+
+/-- `hex::encode` is injective on byte strings (two digits per byte, zero-padded). -/
+theorem hexEncode_injective : ∀ (l1 l2 : List Nat), (∀ b ∈ l1, b < 256) → (∀ b ∈ l2, b < 256) →
+    hexEncode l1 = hexEncode l2 → l1 = l2
+  | [], [], _, _, _ => rfl
+  | [], _ :: _, _, _, h => by simp [hexEncode] at h
+  | _ :: _, [], _, _, h => by simp [hexEncode] at h
+  | a :: r1, b :: r2, h1, h2, h => by
+    simp only [hexEncode, List.cons.injEq] at h
+    obtain ⟨hh, hl, hr⟩ := h
+    have ha := h1 a (by simp)
+    have hb := h2 b (by simp)
+    have e1 := hexDigit_injective _ (Nat.mod_lt _ (by decide)) _ (Nat.mod_lt _ (by decide)) hh
+    have e2 := hexDigit_injective _ (Nat.mod_lt _ (by decide)) _ (Nat.mod_lt _ (by decide)) hl
+    have : a = b := by omega
+    subst this
+    rw [hexEncode_injective r1 r2 (fun x hx => h1 x (by simp [hx])) (fun x hx => h2 x (by simp [hx])) hr]
+
+/-- the eight big-endian bytes determine a `u64`. -/
+theorem be64_injective (g1 g2 : Nat) (h1 : g1 < 2 ^ 64) (h2 : g2 < 2 ^ 64) (h : be64 g1 = be64 g2) :
+    g1 = g2 := by
+  simp [be64, List.range, List.range.loop] at h
+  omega
+
+theorem be64_bytes (g : Nat) : ∀ b ∈ be64 g, b < 256 := by
+  intro b hb
+  simp only [be64, List.mem_map] at hb
+  obtain ⟨i, _, rfl⟩ := hb
+  exact Nat.mod_lt _ (by decide)
+
 /-- on a string of single-byte characters that is long enough, the byte split succeeds and
 returns `take`/`drop`. -/
 theorem splitBytes_ascii (n : Nat) (s : Str) (h1 : ∀ c ∈ s, c.utf8Size = 1) (hl : n ≤ s.length) :
